@@ -51,7 +51,7 @@ func (s *spyFS) Open(name string) (fs.File, error) {
 func openBound(files map[string]string) int {
 	k := 0
 	for _, t := range files {
-		if n := strings.Count(strings.ToUpper(t), "$INCLUDE"); n > k {
+		if n := strings.Count(normLex(t), "$INCLUDE"); n > k {
 			k = n
 		}
 	}
@@ -93,7 +93,33 @@ var lineRe = regexp.MustCompile(` at line: (\d+):(\d+)$`)
 
 func countLines(s string) int { return strings.Count(s, "\n") + 1 }
 
-func countGenerate(s string) int { return strings.Count(strings.ToUpper(s), "$GENERATE") }
+// normLex is the text as far as keyword spotting is concerned: the lexer drops parentheses and
+// carriage returns inside tokens, keywords are case-insensitive (ASCII).
+func normLex(s string) string { return asciiUpper(stripLex(s)) }
+
+// stripLex removes what the lexer drops inside tokens.
+func stripLex(s string) string {
+	b := make([]byte, 0, len(s))
+	for i := 0; i < len(s); i++ {
+		if c := s[i]; c != '(' && c != ')' && c != '\r' {
+			b = append(b, c)
+		}
+	}
+	return string(b)
+}
+
+// asciiUpper keeps the length (unlike strings.ToUpper on arbitrary bytes).
+func asciiUpper(s string) string {
+	b := []byte(s)
+	for i, c := range b {
+		if c >= 'a' && c <= 'z' {
+			b[i] = c - 32
+		}
+	}
+	return string(b)
+}
+
+func countGenerate(s string) int { return strings.Count(normLex(s), "$GENERATE") }
 
 func maxLineLen(s string) int {
 	m := 0
@@ -281,8 +307,10 @@ func runParser(files map[string]string, cfg parserCfg, perRecord func(dns.RR)) (
 			return out, fmt.Errorf("Err() is a %T, not a *dns.ParseError: %v", out.Err, out.Err)
 		}
 		txt := out.Err.Error()
-		if cfg.BadOrigin && out.N == 0 {
-			// configuration error, reported without a position
+		if strings.Contains(txt, "dns: bad initial origin name") {
+			// the constructor's error about the origin it was given carries no position; it
+			// also comes from the sub-parser of a $INCLUDE / $GENERATE when the current origin
+			// has grown beyond 255 octets through relative $ORIGIN directives (see the report)
 			return out, nil
 		}
 		file := ""
